@@ -116,7 +116,9 @@ PCompound(s, T, i) ==
             ELSE IF k = "pseudo_class"
                  THEN LET e == PseudoName(s, T[j].a)
                           nm == NameText(s, T[j].a, e)
-                      IN IF Ch(s, e) # 40 THEN Go(j + 1, Append(acc, IF SimpleOf(nm) = "state" THEN [k |-> "state", name |-> nm] ELSE [k |-> SimpleOf(nm)]))
+                      IN IF Ch(s, e) # 40 THEN Go(j + 1, Append(acc, IF SimpleOf(nm) = "state" THEN [k |-> "state", name |-> nm]
+                                                                 ELSE IF Len(nm) >= 3 /\ SubSeq(nm, 1, 3) = <<58,45,45>> THEN [k |-> "custom", name |-> nm]     \* dashes written as escapes (F09f)
+                                                                 ELSE [k |-> SimpleOf(nm)]))
                          ELSE LET fn == FnOf(nm)
                                   sub == PList(s, T, j + 1, fn = "has", fn \in {"is", "where"})
                               IN IF fn = "nomatch" THEN Go(sub.n + 1, Append(acc, [k |-> "none"]))
